@@ -1,6 +1,7 @@
 // Kani harnesses for rules/eval_context.rs
 #![allow(dead_code, unused_imports)]
 use super::*;
+use crate::rules::path_value::Path;
 
 #[cfg(verif_replay)]
 #[path = "/verif/kani/shim.rs"]
@@ -12,4 +13,213 @@ macro_rules! lib_only {
             return;
         }
     };
+}
+include!("/verif/kani/common.rs");
+
+// ---------------------------------------------------------------------------------------------
+// U-idx: `[n]` index retrieval (C01, C08)
+// ---------------------------------------------------------------------------------------------
+fn idx_shape(len: usize) {
+    let mut elements: Vec<PathAwareValue> = Vec::with_capacity(2);
+    let mut vals = [0i64; 2];
+    let mut i = 0;
+    while i < len {
+        vals[i] = kani::any();
+        elements.push(PathAwareValue::Int((Path::root(), vals[i])));
+        i += 1;
+    }
+    let parent = Rc::new(PathAwareValue::Null(Path::root()));
+    let index: i32 = kani::any();
+    let query: Vec<QueryPart<'static>> = Vec::new();
+    let r = retrieve_index(Rc::clone(&parent), index, &elements, &query);
+    // documented: [n] selects element |n| (negative indices are taken by magnitude in this implementation)
+    let mag: u64 = if index >= 0 { index as u64 } else { (-(index as i64)) as u64 };
+    match &r {
+        QueryResult::Resolved(v) => {
+            kani::assert(mag < len as u64, "an index is resolved only when it is inside the list");
+            match &**v {
+                PathAwareValue::Int((_, x)) => kani::assert(*x == vals[mag as usize], "[n] resolves to the n-th element"),
+                _ => kani::assert(false, "element keeps its type"),
+            }
+        }
+        QueryResult::UnResolved(ur) => {
+            kani::assert(mag >= len as u64, "an index inside the list is resolved");
+            kani::assert(Rc::ptr_eq(&ur.traversed_to, &parent), "an unresolved index reports the list it stopped at");
+        }
+        QueryResult::Literal(_) => kani::assert(false, "index retrieval never yields a literal"),
+    }
+    std::mem::forget(r);
+    std::mem::forget(elements);
+    std::mem::forget(parent);
+}
+
+/// no panic for EVERY i32 index (incl. i32::MIN), lists of 0..2 elements
+#[cfg_attr(kani, kani::proof)]
+#[cfg_attr(kani, kani::stub(alloc::fmt::format, fmt_stub))]
+#[cfg_attr(verif_replay, test)]
+fn k_retrieve_index() {
+    lib_only!();
+    idx_shape(0);
+    idx_shape(1);
+    idx_shape(2);
+}
+
+// ---------------------------------------------------------------------------------------------
+// U-rec: the real RecordTracker against the record-tree model assumed by the Verus units (C02)
+// ---------------------------------------------------------------------------------------------
+const MAXD: usize = 5;
+
+/// all sequences of 4 operations out of {start A, start B, end A, end B}
+#[cfg_attr(kani, kani::proof)]
+#[cfg_attr(kani, kani::stub(alloc::fmt::format, fmt_stub))]
+#[cfg_attr(verif_replay, test)]
+fn k_record_tracker() {
+    lib_only!();
+    let mut t: RecordTracker<'static> = RecordTracker { events: Vec::with_capacity(4), final_event: None };
+    // model: stack of open contexts, number of closed children per open record, root closed?
+    let mut ctx = [0u8; MAXD];
+    let mut kids = [0usize; MAXD];
+    let mut depth = 0usize;
+    let mut finals = 0usize;
+    let mut step = 0;
+    while step < 4 {
+        let op: u8 = kani::any();
+        kani::assume(op <= 3);
+        let name = if op & 1 == 0 { "A" } else { "B" };
+        if op < 2 {
+            let r = t.start_record(name);
+            kani::assert(r.is_ok(), "start_record always succeeds");
+            std::mem::forget(r);
+            ctx[depth] = op & 1;
+            kids[depth] = 0;
+            depth += 1;
+        } else {
+            let r = t.end_record(name, RecordType::TypeBlock(Status::PASS));
+            if depth == 0 || ctx[depth - 1] != (op & 1) {
+                kani::assert(r.is_err(), "end_record without a matching start_record is an error");
+                if depth > 0 {
+                    // the real tracker has already popped the open record: the model follows the code here, callers
+                    // propagate the error and drop the tracker
+                    depth -= 1;
+                }
+            } else {
+                kani::assert(r.is_ok(), "a matching end_record succeeds");
+                depth -= 1;
+                if depth == 0 {
+                    finals += 1;
+                } else {
+                    kids[depth - 1] += 1;
+                }
+            }
+            let failed = r.is_err();
+            std::mem::forget(r);
+            if failed {
+                break;
+            }
+        }
+        // refinement check: the tracker's stack is the model's stack
+        kani::assert(t.events.len() == depth, "one open record per unmatched start_record");
+        if depth > 0 {
+            kani::assert(t.events[depth - 1].children.len() == kids[depth - 1], "a closed record becomes the last child of the innermost open record");
+            kani::assert(t.events[depth - 1].container.is_none(), "open records carry no status yet");
+        }
+        kani::assert(t.final_event.is_some() == (finals > 0), "the record closed at depth 0 becomes the root");
+        step += 1;
+    }
+    std::mem::forget(t);
+}
+
+// ---------------------------------------------------------------------------------------------
+// U-call: argument handling of the function dispatcher (C08, C18)
+// ---------------------------------------------------------------------------------------------
+fn arg_of(kind: u8) -> Vec<QueryResult> {
+    match kind {
+        0 => Vec::new(), // an empty selection
+        1 => vec![qr_int(kani::any())],
+        2 => vec![qr_str(String::new())],
+        _ => vec![qr_unresolved()],
+    }
+}
+
+fn call_shape(f: FunctionName, k1: u8, k2: u8) {
+    let args: Vec<Vec<QueryResult>> = vec![vec![qr_str(String::new())], arg_of(k1), arg_of(k2)];
+    let r = f.call(&args);
+    // every argument shape must return (Ok or a diagnostic Err), never panic
+    std::mem::forget(r);
+    std::mem::forget(args);
+}
+
+#[cfg_attr(kani, kani::proof)]
+#[cfg_attr(kani, kani::stub(alloc::fmt::format, fmt_stub))]
+#[cfg_attr(kani, kani::stub(fancy_regex::Regex::new, regex_new_stub))]
+#[cfg_attr(verif_replay, test)]
+fn k_call_substring_args() {
+    lib_only!();
+    let mut k1 = 0u8;
+    while k1 <= 3 {
+        let mut k2 = 0u8;
+        while k2 <= 3 {
+            call_shape(FunctionName::Substring, k1, k2);
+            k2 += 1;
+        }
+        k1 += 1;
+    }
+}
+
+#[cfg_attr(kani, kani::proof)]
+#[cfg_attr(kani, kani::stub(alloc::fmt::format, fmt_stub))]
+#[cfg_attr(kani, kani::stub(fancy_regex::Regex::new, regex_new_stub))]
+#[cfg_attr(verif_replay, test)]
+fn k_call_join_args() {
+    lib_only!();
+    let mut k1 = 0u8;
+    while k1 <= 3 {
+        call_shape(FunctionName::Join, k1, 1);
+        k1 += 1;
+    }
+}
+
+#[cfg_attr(kani, kani::proof)]
+#[cfg_attr(kani, kani::stub(alloc::fmt::format, fmt_stub))]
+#[cfg_attr(kani, kani::stub(fancy_regex::Regex::new, regex_new_stub))]
+#[cfg_attr(verif_replay, test)]
+fn k_call_regex_replace_args() {
+    lib_only!();
+    let mut k1 = 0u8;
+    while k1 <= 3 {
+        let mut k2 = 0u8;
+        while k2 <= 3 {
+            call_shape(FunctionName::RegexReplace, k1, k2);
+            k2 += 1;
+        }
+        k1 += 1;
+    }
+}
+
+/// substring(s, i, j) through the dispatcher: integer offsets that are not valid offsets of the string are skipped,
+/// never silently reinterpreted (C18: "strings for which the offsets are out of range are skipped")
+#[cfg_attr(kani, kani::proof)]
+#[cfg_attr(kani, kani::stub(alloc::fmt::format, fmt_stub))]
+#[cfg_attr(kani, kani::stub(fancy_regex::Regex::new, regex_new_stub))]
+#[cfg_attr(verif_replay, test)]
+fn k_call_substring_offsets() {
+    lib_only!();
+    let mut s = String::with_capacity(4);
+    s.push('a');
+    s.push('b');
+    s.push('c');
+    let from: i64 = kani::any();
+    let to: i64 = kani::any();
+    let args: Vec<Vec<QueryResult>> = vec![vec![qr_str(s)], vec![qr_int(from)], vec![qr_int(to)]];
+    let r = FunctionName::Substring.call(&args);
+    match &r {
+        Ok(v) => {
+            kani::assert(v.len() == 1, "element-wise");
+            let in_range = 0 <= from && from < to && to <= 3;
+            kani::assert(v[0].is_some() == in_range, "a value iff 0 <= i < j <= len");
+        }
+        Err(_) => kani::assert(false, "integer offsets are accepted"),
+    }
+    std::mem::forget(r);
+    std::mem::forget(args);
 }
